@@ -28,6 +28,7 @@ func init() {
 			{ID: "C11.R10", Floor: 2, Run: constPrefilters, Text: "constant subscription pre-filters: only the two target setters (table in checker/rules_r3.go) test Subscriptions() against a constant mask before notifying, and the mask is event.TargetChanged; every other notification leaves filtering to subscribes() with the per-event types"},
 			{ID: "C11.R11", Floor: 7, Run: c04r1, Text: "mask operations are word-uniform (= C04.R1): Added/Removed of an event are computed with Xor/And"},
 			{ID: "C11.R12", Floor: 9, Run: c04r2, Text: "mask operations have their set semantics (= C04.R2)"},
+			{ID: "C11.R13", Floor: 1, Run: zeroIDNotAbsence, Text: "the zero ID never stands for absence in a comparison: no ==/!= on an ID operand that may hold the zero default of a missing option (component id 0 is a real id)"},
 			{ID: "C11.R7", Floor: 1, Run: c12r5, Text: "freshness of notification inputs in loops (= C12.R5)"},
 		},
 	})
